@@ -52,6 +52,7 @@ Q = {
     "tnx-l000c":    cfg("TNx", 1, 1, 4, 0, 0, 0, 0, 1),
     "tnx-l101":     cfg("TNx", 1, 2, 5, 1, 0, 1),
     "tthrow-l011":  cfg("TThrow", 1, 5, 2, 0, 1, 1),
+    "int-l111":     cfg("int", 1, 0, 4, 1, 1, 1),
 }
 QTD = {
     "tnx-td":       cfg("TNx", 1, 2, 5, throwdef=1),
@@ -137,7 +138,7 @@ def check_C01(tier, seed):
     if tier == "quick":
         for k in ("int-std", "tnx-l000", "tthrow-l000", "tco-l010", "tmo-l111"):
             plan += shards(Q[k], "asan-dbg", ["--mode", "sweep", "--level", 0] + mon, 2)
-        for k in ("int-std", "tnx-l000", "tthrow-l000", "tthrow-std", "tmo-l111", "tco-l010", "tnx-l101ae", "tmot-l001"):
+        for k in ("int-std", "tnx-l000", "tthrow-l000", "tthrow-std", "tmo-l111", "tco-l010", "tnx-l101ae", "tmot-l001", "int-l111"):
             plan.append(hist_run(Q[k], "asan-dbg", ["--mode", "random", "--cases", 600, "--len", 60, "--seed", seed] + mon))
         for k in ("int-std", "tnx-l000"):
             plan.append(hist_run(Q[k], "asan-rel", ["--mode", "random", "--cases", 1500, "--len", 60, "--seed", seed + 1] + mon))
@@ -150,6 +151,20 @@ def check_C01(tier, seed):
             plan.append(hist_run(Q[k], "asan-rel", ["--mode", "random", "--cases", 20000, "--len", 60, "--seed", seed + 1] + mon))
             plan.append(hist_run(Q[k], "clang-asan", ["--mode", "random", "--cases", 8000, "--len", 60, "--seed", seed + 2] + mon))
     run_hist_plan(rp, "C01", plan, accept={"C01", "C16"})
+    if tier != "quick":
+        # valgrind memcheck on the uninstrumented build: use of uninitialised element values, which ASan cannot see
+        vspecs = [{"src": "hist.cpp", "flavour": "plain-dbg", "defines": Q[k], "name": "hist"} for k in ("int-l111", "tnx-l000")]
+        vbins = build_many(vspecs)
+        vcmds = [["env", "SVMON_NO_POISON=1", "valgrind", "-q", "--error-exitcode=99", "--leak-check=no", "--track-origins=no", b, "--mode", "random", "--cases", "150", "--len", "50", "--seed", str(seed + 9), "--nofork", "--monitors", "C01"]
+                 for b in vbins if not isinstance(b, BuildError)]
+        for res in run_many(vcmds, timeout=3000):
+            rp.coverage["counters"]["valgrind-runs"] = rp.coverage["counters"].get("valgrind-runs", 0) + 1
+            if res["rc"] == 99:
+                rp.add_violation("hist|C01|valgrind.memcheck", "valgrind memcheck reported an error: %s" % res["err"][-1500:], {"engine": "hist", "replay_cmd": res["cmd"]})
+            elif res["rc"] != 0:
+                rp.add_inconclusive("valgrind run failed with %s: %s" % (res["rc"], res["err"][-300:]))
+            else:
+                parse_engine_output(res, rp, "C01", {"engine": "hist", "config": "valgrind", "config_class": "valgrind", "mode": "random", "replay_cmd": res["cmd"], "expect_done": False}, accept_props={"C01"})
     floor(rp, "c01.read-checks", 1000, "read-path checks")
     return rp.finish()
 
@@ -327,7 +342,7 @@ def check_C09(tier, seed):
     mon = ["--monitors", "C09"]
     plan = []
     if tier == "quick":
-        for k in ("tnx-l000", "tmo-l111", "tco-l010", "tthrow-std", "tnx-l101ae", "tthrow-l011", "int-std", "tmot-l001"):
+        for k in ("tnx-l000", "tmo-l111", "tco-l010", "tthrow-std", "tnx-l101ae", "tthrow-l011", "int-std", "tmot-l001", "int-l111"):
             plan += shards(Q[k], "asan-dbg", ["--mode", "sweep", "--level", 0, "--select", "binary"] + mon, 2)
             plan.append(hist_run(Q[k], "asan-dbg", ["--mode", "random", "--focus", "alloc", "--cases", 400, "--len", 60, "--seed", seed] + mon))
     else:
@@ -353,7 +368,7 @@ def check_C10(tier, seed):
     if tier == "quick":
         for k in ("tnx-l000", "tthrow-l000", "int-std", "tco-l010", "tmo-l111"):
             plan += shards(Q[k], "asan-dbg", ["--mode", "sweep", "--level", 0] + mon, 2)
-        for k in ("tnx-l000", "tthrow-l000", "int-std", "tco-l010", "tmo-l111", "tthrow-std", "tnx-l101ae", "tnx-l000c"):
+        for k in ("tnx-l000", "tthrow-l000", "int-std", "tco-l010", "tmo-l111", "tthrow-std", "tnx-l101ae", "tnx-l000c", "int-l111"):
             plan.append(hist_run(Q[k], "asan-dbg", ["--mode", "random", "--focus", "grow", "--cases", 500, "--len", 60, "--seed", seed] + mon))
     else:
         M = thorough_matrix()
